@@ -405,16 +405,29 @@ func runC15(r *simkit.Run) {
 				params = append(params, v.p)
 				descs = append(descs, v.desc)
 			}
+			if tp.Chance(1, 5) {
+				// the session's sql_mode changes between PREPARE and EXECUTE: what counts is the mode at execution
+				mode := modes[tp.Choose(len(modes))]
+				q := fmt.Sprintf("set sql_mode = '%s'", mode)
+				_, serr := c.Query(q)
+				r.Logf("%s (after prepare) -> %s", q, errText(serr))
+				r.Fault("sql_mode-changed")
+				r.Probe("sql_mode-changed-between-prepare-and-execute")
+			}
 			rounds := 1
 			if tp.Chance(1, 3) {
 				rounds = 2 // execute again without re-sending the parameter types, after another command used the connection
 			}
 			for round := 0; round < rounds; round++ {
 				if round == 1 {
-					if tp.Chance(1, 2) {
+					switch tp.Choose(3) {
+					case 0:
 						c.Ping()
-					} else {
+					case 1:
 						c.Query(fmt.Sprintf("select %d /* in between */", markerOf(1, j)))
+					default:
+						c.Query(fmt.Sprintf("set sql_mode = '%s'", modes[tp.Choose(len(modes))]))
+						r.Fault("sql_mode-changed")
 					}
 					r.Probe("re-executed-without-types")
 				}
